@@ -46,7 +46,7 @@ CHECKS = {
  "C15": dict(
    technique="runtime monitor: relational oracle aligning every option run with the option-free run of the same real tokenizer (all 128 option sets), with the H1 loop-progress hook",
    text="For every input the real tokenizer is run option-free and under each of the 128 option sets; the monitor checks that the option run is exactly the option-free stream with Unknown/Comment/end-of-input tokens removed iff their skip option is on, whitespace runs reduced to one token iff skip-whitespaces is on, and only the permitted rewrites (single blank, Number type, reference-decoded strings) applied; hook H1 turns a non-advancing main loop into an observation. Inputs: 41 hand-written patterns with skipped kinds between others, every string up to length 2/3 over a 20-character alphabet, random fragment concatenations, generated lexeme sequences.",
-   note="Which whitespace token of a run survives skip-whitespaces is not prescribed by the statement and not asserted. One known finding (mustache, Unknown token inside a tag) is listed in known_findings.json.",
+   note="Which whitespace token of a run survives skip-whitespaces is not prescribed by the statement and not asserted. The two mustache defects it found (Unknown token inside a tag; a decoded \"}}\" literal ending a tag) are repaired.",
    ref="DESIGN.md §3 C15"),
  "C06": dict(
    technique="runtime monitor: host-arithmetic reference table compared with every operator result over all ordered pairs of a boundary value pool, both managers",
@@ -101,7 +101,7 @@ CHECKS = {
  "C10": dict(
    technique="runtime monitor: reference renderer over generated template trees, malformed-by-construction mutants, and a three-valued reference classifier over exhaustive lexeme strings",
    text="Template trees (text of all Unicode, variables, escaped variables, comments, nested sections in every spelling, blanks inside tags, names in ASCII/Latin-1/Cyrillic and random case) are printed, set on a real MustacheTemplate and rendered under maps with present/absent/empty values; the result must equal the reference rendering of the tree. Well-formed printings are made malformed in exactly one of five ways and must be rejected. Every sequence of up to 5 (quick) / 7 (thorough) template lexemes is classified well-formed / malformed / not determined by an independent classifier and checked accordingly.",
-   note="Known finding: quote characters inside a comment body (known_findings.json). Don't-care zones are listed in DESIGN.md §3 C10.",
+   note="Don't-care zones are listed in DESIGN.md §3 C10. Comment bodies with quote characters (a defect of the pinned tree, repaired) are generated on purpose.",
    ref="DESIGN.md §3 C10"),
  "C19": dict(
    technique="Go race detector over concurrent evaluations of shared parsed instances with the H3 yield hook, plus snapshot and sequential-result monitors",
@@ -149,7 +149,7 @@ def main():
         ],
         "checks": checks,
         "not_applicable": na,
-        "notes": "All checks are runtime monitors over executions of the real code (see DESIGN.md). Exit codes: 0 held, 1 violation (VIOLATION line + replay file), 3 inconclusive. Known findings and fixed defects: known_findings.json.",
+        "notes": "All checks are runtime monitors over executions of the real code (see DESIGN.md). Exit codes: 0 held, 1 violation (VIOLATION line + replay file), 3 inconclusive. Fixed defects (no open known finding): known_findings.json.",
     }
     if not na:
         del m["not_applicable"]
